@@ -147,10 +147,15 @@ def predict_err_sizes(M, rname: str, m) -> dict:
         texts = {"ud": str(e), "rf": "refused-by-handler"}
     except Exception:
         return out
+    # pickle shares equal strings only when they are the same object: in the real reply the destination context is
+    # the connection's peer_context_name, an object of its own (matters when the peer's name equals ours)
+    peer_name = m.source_address.context_id
+    if isinstance(peer_name, str):
+        peer_name = (peer_name + "x")[:-1]
     for k, text in texts.items():
         reply = M.QMI_ErrorReplyMessage(source_address=m.destination_address,
                                         destination_address=M.QMI_MessageHandlerAddress(
-                                            m.source_address.context_id, m.source_address.object_id),
+                                            peer_name, m.source_address.object_id),
                                         request_id=m.request_id, error_msg=text)
         out[k] = len(pickle.dumps(reply))
     return out
@@ -211,6 +216,8 @@ class Intern:
             m = re.fullmatch(r"\$client_([0-9]+)", s)
             if m and str(int(m.group(1))) == m.group(1):
                 return f"c{m.group(1)}"
+            if s.startswith("$"):
+                return f"d{self.get('dollar', s)}"
         return f"n{self.get('name', s if isinstance(s, str) else repr(s))}"
 
 
@@ -639,6 +646,14 @@ class SimCtx:
             self.I.get("tag", content_key(message)), hx(payload_expected), int(send_ok))
         self._op(line, self.canon(self.events[mark:], "send"))
         return before == snapshot(message)
+
+    def close_all(self):
+        """router / context stop: the event loop runs `_SocketManager.close_all`"""
+        mark = len(self.events)
+        self._call("close_all", lambda: self.sm.close_all())
+        self._op("closeall", self.canon(self.events[mark:], "recv"))
+        for cid in sorted(self.conns):
+            self._op("state %d" % cid, self.state(cid))
 
     def disconnect(self, alias: str):
         mark = len(self.events)
